@@ -106,6 +106,134 @@ theorem suffix_same_length_eq (a b s : Str) (ha : hasSuffix a s = true) (hb : ha
   have heq := hp.trans hq.symm
   exact (List.append_inj heq hlen).2
 
+/-! ### the order validation establishes (`validateCookie` sorts the configured domains longest first)
+
+  `domainRule_spec` assumes that order; here it is produced from ANY configured list, so that the
+  statement is about what the operator wrote, in whatever order. -/
+
+theorem mem_insertByLen (d x : Str) (xs : List Str) : x ∈ insertByLen d xs ↔ x = d ∨ x ∈ xs := by
+  induction xs with
+  | nil => simp [insertByLen]
+  | cons y ys ih =>
+    unfold insertByLen
+    split
+    · simp
+    · simp only [List.mem_cons, ih]
+      constructor
+      · rintro (h | h | h)
+        · exact Or.inr (Or.inl h)
+        · exact Or.inl h
+        · exact Or.inr (Or.inr h)
+      · rintro (h | h | h)
+        · exact Or.inr (Or.inl h)
+        · exact Or.inl h
+        · exact Or.inr (Or.inr h)
+
+theorem mem_sortDomains (x : Str) (ds : List Str) : x ∈ sortDomains ds ↔ x ∈ ds := by
+  induction ds with
+  | nil => simp [sortDomains]
+  | cons d ds ih => simp [sortDomains, mem_insertByLen, ih]
+
+theorem insertByLen_sorted (d : Str) (xs : List Str) (h : SortedByLen xs) : SortedByLen (insertByLen d xs) := by
+  induction xs with
+  | nil => simp [insertByLen, SortedByLen]
+  | cons y ys ih =>
+    rw [SortedByLen, List.pairwise_cons] at h
+    unfold insertByLen
+    split
+    · rename_i hle
+      rw [SortedByLen, List.pairwise_cons]
+      refine ⟨?_, by rw [List.pairwise_cons]; exact h⟩
+      intro b hb
+      rcases List.mem_cons.1 hb with rfl | hm
+      · exact hle
+      · exact Nat.le_trans (h.1 b hm) hle
+    · rename_i hnle
+      rw [SortedByLen, List.pairwise_cons]
+      refine ⟨?_, ih h.2⟩
+      intro b hb
+      rcases (mem_insertByLen d b ys).1 hb with rfl | hm
+      · omega
+      · exact h.1 b hm
+
+theorem sortDomains_sorted (ds : List Str) : SortedByLen (sortDomains ds) := by
+  induction ds with
+  | nil => simp [sortDomains, SortedByLen]
+  | cons d ds ih => exact insertByLen_sorted d _ ih
+
+/-- **domain_configured** (C18, the Domain clause without a hypothesis on the order).  For the domains the
+    operator configured, in any order, after validation's sort:
+    * if some configured domain is a suffix of the request host name, the Domain is a configured domain that
+      is such a suffix and no configured suffix of the host name is longer;
+    * if none is, the Domain is a configured domain no longer than any other (or empty when nothing is configured). -/
+theorem domain_configured (ds : List Str) (host : Str) :
+    let r := domainRule (sortDomains ds) host
+    ((∃ d ∈ ds, hasSuffix d (hostName host) = true) →
+        r ∈ ds ∧ hasSuffix r (hostName host) = true ∧
+        ∀ d' ∈ ds, hasSuffix d' (hostName host) = true → d'.length ≤ r.length) ∧
+    ((∀ d ∈ ds, hasSuffix d (hostName host) = false) → ds ≠ [] →
+        r ∈ ds ∧ ∀ d ∈ ds, r.length ≤ d.length) ∧
+    (ds = [] → r = []) := by
+  intro r
+  have hs := sortDomains_sorted ds
+  obtain ⟨h1, h2, _⟩ := domainRule_spec (sortDomains ds) host hs
+  refine ⟨?_, ?_, ?_⟩
+  · rintro ⟨d, hd, hsuf⟩
+    cases hg : getCookieDomain (sortDomains ds) host with
+    | none =>
+      have := (h2 hg).1 d ((mem_sortDomains d ds).2 hd)
+      rw [hsuf] at this; cases this
+    | some g =>
+      obtain ⟨e1, e2, e3, e4⟩ := h1 g hg
+      refine ⟨?_, ?_, ?_⟩
+      · show domainRule (sortDomains ds) host ∈ ds
+        rw [e1]; exact (mem_sortDomains g ds).1 e2
+      · show hasSuffix (domainRule (sortDomains ds) host) (hostName host) = true
+        rw [e1]; exact e3
+      · intro d' hd' hs'
+        show d'.length ≤ (domainRule (sortDomains ds) host).length
+        rw [e1]; exact e4 d' ((mem_sortDomains d' ds).2 hd') hs'
+  · intro hnone hne
+    have hg : getCookieDomain (sortDomains ds) host = none := by
+      unfold getCookieDomain
+      rw [List.find?_eq_none]
+      intro d hd
+      have := hnone d ((mem_sortDomains d ds).1 hd)
+      simp [this]
+    obtain ⟨_, e2, e3⟩ := h2 hg
+    have hne' : sortDomains ds ≠ [] := by
+      intro h0
+      cases ds with
+      | nil => exact hne rfl
+      | cons d ds' =>
+        have : d ∈ sortDomains (d :: ds') := (mem_sortDomains d _).2 List.mem_cons_self
+        rw [h0] at this; cases this
+    obtain ⟨l, hl⟩ : ∃ l, (sortDomains ds).getLast? = some l := by
+      cases hgl : (sortDomains ds).getLast? with
+      | none => exact absurd (List.getLast?_eq_none_iff.1 hgl) hne'
+      | some l => exact ⟨l, rfl⟩
+    have hr : r = l := by show domainRule (sortDomains ds) host = l; rw [e2, hl]; rfl
+    refine ⟨?_, ?_⟩
+    · rw [hr]; exact (mem_sortDomains l ds).1 (List.mem_of_getLast? hl)
+    · intro d hd
+      rw [hr]; exact e3 l hl d ((mem_sortDomains d ds).2 hd)
+  · intro h0; subst h0
+    show domainRule (sortDomains []) host = []
+    simp [sortDomains, domainRule, getCookieDomain]
+
+/-- the matching domain of maximal length is unique, so WHICH length-descending sort validation uses (Go's
+    `sort.Slice` is not stable) cannot matter -/
+theorem domain_unique (ds : List Str) (host : Str) (a b : Str)
+    (ha : a ∈ ds ∧ hasSuffix a (hostName host) = true ∧ ∀ d' ∈ ds, hasSuffix d' (hostName host) = true → d'.length ≤ a.length)
+    (hb : b ∈ ds ∧ hasSuffix b (hostName host) = true ∧ ∀ d' ∈ ds, hasSuffix d' (hostName host) = true → d'.length ≤ b.length) :
+    a = b :=
+  suffix_same_length_eq a b (hostName host) ha.2.1 hb.2.1
+    (Nat.le_antisymm (hb.2.2 a ha.1 ha.2.1) (ha.2.2 b hb.1 hb.2.1))
+
+/-- operator order does not matter: three domains written shortest first -/
+example : domainRule (sortDomains ["example.com".toList, "sub.example.com".toList, "app.sub.example.com".toList])
+    "x.sub.example.com".toList = "sub.example.com".toList := by decide +kernel
+
 /-- the port never takes part in the match (regression of the repaired defect) -/
 example : domainRule [".a.example.com".toList, ".example.com".toList] "x.a.example.com:8080".toList = ".a.example.com".toList := by decide
 example : domainRule [".a.example.com".toList, ".example.com".toList] "[::1]:8080".toList = ".example.com".toList := by decide
